@@ -62,20 +62,20 @@ Definition pc_chunks_with_ids {A} (data ids : list A) (c : nat) : list (list A) 
 Definition pc_subset (a b : list str) : bool := forallb (fun x => mem_str x b) a.
 
 (* literal reserved names *)
-Definition S_specid : str := [115;112;101;99;105;100].
-Definition S_peptide : str := [112;101;112;116;105;100;101].
-Definition S_proteins : str := [112;114;111;116;101;105;110;115].
-Definition S_label : str := [108;97;98;101;108].
-Definition S_scannr : str := [115;99;97;110;110;114].
-Definition S_modifiedpeptide : str := [109;111;100;105;102;105;101;100;112;101;112;116;105;100;101].
-Definition S_precursor : str := [112;114;101;99;117;114;115;111;114].
-Definition S_peptidegroup : str := [112;101;112;116;105;100;101;103;114;111;117;112].
-Definition S_filename : str := [102;105;108;101;110;97;109;101].
-Definition S_calcmass : str := [99;97;108;99;109;97;115;115].
-Definition S_expmass : str := [101;120;112;109;97;115;115].
-Definition S_ret_time : str := [114;101;116;95;116;105;109;101].
-Definition S_charge_column : str := [99;104;97;114;103;101;95;99;111;108;117;109;110].
-Definition S_charge : str := [99;104;97;114;103;101].
+Definition pcS_specid : str := [115;112;101;99;105;100].
+Definition pcS_peptide : str := [112;101;112;116;105;100;101].
+Definition pcS_proteins : str := [112;114;111;116;101;105;110;115].
+Definition pcS_label : str := [108;97;98;101;108].
+Definition pcS_scannr : str := [115;99;97;110;110;114].
+Definition pcS_modifiedpeptide : str := [109;111;100;105;102;105;101;100;112;101;112;116;105;100;101].
+Definition pcS_precursor : str := [112;114;101;99;117;114;115;111;114].
+Definition pcS_peptidegroup : str := [112;101;112;116;105;100;101;103;114;111;117;112].
+Definition pcS_filename : str := [102;105;108;101;110;97;109;101].
+Definition pcS_calcmass : str := [99;97;108;99;109;97;115;115].
+Definition pcS_expmass : str := [101;120;112;109;97;115;115].
+Definition pcS_ret_time : str := [114;101;116;95;116;105;109;101].
+Definition pcS_charge_column : str := [99;104;97;114;103;101;95;99;111;108;117;109;110].
+Definition pcS_charge : str := [99;104;97;114;103;101].
 
 Record pc_opts := { o_filename : option str; o_calcmass : option str; o_expmass : option str;
                     o_rt : option str; o_charge : option str }.
@@ -115,23 +115,23 @@ Record pc_class := {
   k_rt : option str; k_charge : option str; k_spectra : list str; k_nonfeat : list str }.
 
 Definition pc_classify (columns : list str) (o : pc_opts) : result pc_class :=
-  bind (pc_find_required S_specid columns) (fun specid =>
-  bind (pc_find_required S_peptide columns) (fun peptides =>
-  bind (pc_find_required S_proteins columns) (fun proteins =>
-  bind (pc_find_required S_label columns) (fun labels =>
-  bind (pc_find_required S_scannr columns) (fun scan =>
-  let modp := pc_find_all S_modifiedpeptide columns in
-  let prec := pc_find_all S_precursor columns in
-  let pgrp := pc_find_all S_peptidegroup columns in
+  bind (pc_find_required pcS_specid columns) (fun specid =>
+  bind (pc_find_required pcS_peptide columns) (fun peptides =>
+  bind (pc_find_required pcS_proteins columns) (fun proteins =>
+  bind (pc_find_required pcS_label columns) (fun labels =>
+  bind (pc_find_required pcS_scannr columns) (fun scan =>
+  let modp := pc_find_all pcS_modifiedpeptide columns in
+  let prec := pc_find_all pcS_precursor columns in
+  let pgrp := pc_find_all pcS_peptidegroup columns in
   let levels := [peptides] ++ modp ++ prec ++ pgrp in
   let nonfeat0 := [specid; scan; peptides; proteins; labels] ++ modp ++ prec ++ pgrp in
-  bind (pc_find_optional (o_filename o) columns S_filename) (fun filename =>
-  bind (pc_find_optional (o_calcmass o) columns S_calcmass) (fun calcmass =>
-  bind (pc_find_optional (o_expmass o) columns S_expmass) (fun expmass =>
-  bind (pc_find_optional (o_rt o) columns S_ret_time) (fun ret_time =>
-  bind (pc_find_optional (o_charge o) columns S_charge_column) (fun charge =>
+  bind (pc_find_optional (o_filename o) columns pcS_filename) (fun filename =>
+  bind (pc_find_optional (o_calcmass o) columns pcS_calcmass) (fun calcmass =>
+  bind (pc_find_optional (o_expmass o) columns pcS_expmass) (fun expmass =>
+  bind (pc_find_optional (o_rt o) columns pcS_ret_time) (fun ret_time =>
+  bind (pc_find_optional (o_charge o) columns pcS_charge_column) (fun charge =>
   let spectra := pc_somes [filename; Some scan; ret_time; expmass] in
-  let alt_charge := filter (fun c => prefixb S_charge (pc_lower c)) columns in
+  let alt_charge := filter (fun c => prefixb pcS_charge (pc_lower c)) columns in
   let nonfeat1 := nonfeat0 ++
      (match charge with
       | Some ch => if Nat.ltb 1 (length alt_charge) then [ch] else []
